@@ -1532,7 +1532,13 @@ class System:
                 self.processing_modules.append(mod.fullName())
                 if mod._py_string is None:
                     self.msg("processModule", "processing %s"%(self.processing_modules), 1)
-                builder.processModuleAST(ast, mod)
+                try:
+                    builder.processModuleAST(ast, mod)
+                except RecursionError:
+                    # The parser accepted the file, but an expression or an if/elif chain 
+                    # is nested too deep for the tree to be walked: what has been collected
+                    # up to there is kept.
+                    mod.report("cannot analyse the whole module, too many nested constructs")
                 mod.state = ProcessingState.PROCESSED
                 head = self.processing_modules.pop()
                 assert head == mod.fullName()
